@@ -23,6 +23,7 @@ import Driver.OpsServe
 import Driver.OpsLegal
 import Driver.OpsMCTSPolicy
 import Driver.OpsCmd
+import Driver.OpsCompose
 namespace Driver
 
 def handlers : List Handler := [
@@ -50,6 +51,7 @@ def handlers : List Handler := [
   handleLegal,
   handleMCTSPolicy,
   handleCmd,
+  handleCompose,
 ]
 
 def step (st : St) (line : String) : St × String :=
